@@ -381,6 +381,10 @@ CONTENT_PROGS = [
     [(10, [("let", ("var", "B"), ("num", 2.0, ["2"]), False), ("let", ("var", "A"), ("var", "MID"), False)])],
     [(10, [("let", ("var", "CHR"), ("num", 3.0, ["3"]), False)]), (20, [("print", [("e", ("var", "CHR"))], None)])],
     [(10, [("let", ("var", "A"), ("bin", "+", ("var", "STRING"), ("var", "LEFT")), False)]), (20, [("let", ("var", "Q"), ("var", "HEX"), False)])],
+    # PRINT items that follow each other without a separator: two literals, a literal and a variable (the blank between
+    # them is optional)
+    [(10, [("print", [("e", ("str", "A")), ("e", ("str", "B"))], None)]), (20, [("print", [("e", ("str", "X")), ("e", ("var", "B$")), ("e", ("str", "Y Z")), ("sep", ";")], None)])],
+    [(10, [("let", ("var", "B$"), ("str", "Q"), False)]), (20, [("print", [("e", ("str", "")), ("e", ("str", "")), ("e", ("var", "B$"))], ("num", 5.0, ["5"]))])],
     # a variable called GO in front of TO / a name beginning with SUB (GO TO and GO SUB are two-word spellings of GOTO / GOSUB)
     [(10, [("for", "I", ("var", "GO"), ("num", 3.0, ["3"]), None), ("next", ["I"])]), (20, [("print", [("e", ("var", "GO")), ("sep", ";"), ("e", ("var", "SUB"))], None)])],
     [(10, [("for", "I", ("bin", "+", ("num", 1.0, ["1"]), ("var", "GO")), ("var", "GO"), ("var", "GO")), ("next", ["I"])])],
